@@ -216,6 +216,8 @@ func VerifC02Box(boxType string, n int, large bool) {
 	}
 	vfy.Cover("decoded")
 	vfy.Cover("decoded:" + boxType)
+	// known finding: FullBox versions >= 2 (see C01-unknown-version): Size() and the encoders disagree
+	vfy.Known("C02-unknown-version", c01FullBox[boxType] && n > 0 && in[hdrLen(large)] >= 2)
 	s0 := b.Size()
 	sw := bits.NewFixedSliceWriter(int(s0) + 8)
 	err = b.EncodeSW(sw)
